@@ -20,6 +20,8 @@ Lemma guarded_ok : forall st, In st sites -> access_ok st = true.
 Proof. apply all_sites. vm_compute. reflexivity. Qed.
 Lemma waits_ok : forall st, In st sites -> wait_ok st = true.
 Proof. apply all_sites. vm_compute. reflexivity. Qed.
+Lemma calls_panic_safe : forall st, In st sites -> panic_safe st = true.
+Proof. apply all_sites. vm_compute. reflexivity. Qed.
 Lemma no_outside_lockers : outside_ok = true.
 Proof. vm_compute. reflexivity. Qed.
 
